@@ -85,9 +85,18 @@ Proof.
   - intros a b d E. apply String.compare_eq_iff in E. now subst.
 Qed.
 
+Lemma ok_N : ok N.compare.
+Proof.
+  split.
+  - apply N.compare_refl.
+  - intros a b. apply N.compare_antisym.
+  - intros a b d. rewrite !N.compare_lt_iff. lia.
+  - intros a b d E. apply N.compare_eq in E. now subst.
+Qed.
+
 Lemma ok_dcmp : ok dcmp.
 Proof.
-  unfold dcmp. repeat apply ok_lex; apply ok_on; first [apply ok_zflip | apply ok_Z | apply ok_string].
+  unfold dcmp. repeat apply ok_lex; apply ok_on; first [apply ok_zflip | apply ok_Z | apply ok_string | apply ok_N].
 Qed.
 
 Lemma ok_k7 : ok k7.
@@ -110,10 +119,10 @@ Proof. unfold kcmp. apply ok_lex; [apply ok_k7|apply ok_on, ok_odcmp]. Qed.
 (** The Go comparator answers "less" exactly when the key order does, or when the keys tie and the left
     report has no diagnostics (the cmpDiagnostics quirk). *)
 Lemma report_lt_spec a b :
-  report_lt a b = true <-> kcmp a b = Lt \/ (kcmp a b = Eq /\ r_diags a = []).
+  report_lt a b = true <-> kcmp a b = Lt \/ (kcmp a b = Eq /\ fsort (r_diags a) = []).
 Proof.
   unfold report_lt, kcmp, lex, on. destruct (k7 a b); cbn.
-  - destruct (r_diags a) as [|x xs], (r_diags b) as [|y ys]; cbn; unfold diag_lt.
+  - destruct (fsort (r_diags a)) as [|x xs], (fsort (r_diags b)) as [|y ys]; cbn; unfold diag_lt.
     + split; auto.
     + split; auto.
     + split; [discriminate|]. intros [H|[H _]]; discriminate.
@@ -123,13 +132,15 @@ Proof.
 Qed.
 
 (** key equality as data *)
-Lemma dcmp_eq a b : dcmp a b = Eq <-> (dg_first a = dg_first b /\ dg_last a = dg_last b /\ dg_msg a = dg_msg b).
+Lemma dcmp_eq a b : dcmp a b = Eq <->
+  (dg_first a = dg_first b /\ dg_last a = dg_last b /\ dg_msg a = dg_msg b /\ dg_extra a = dg_extra b).
 Proof.
   unfold dcmp, lex, on, zflip. split.
   - destruct (dg_first b ?= dg_first a)%Z eqn:E1; try discriminate.
-    destruct (dg_last a ?= dg_last b)%Z eqn:E2; try discriminate. intros E3.
-    apply Z.compare_eq in E1, E2. apply String.compare_eq_iff in E3. auto.
-  - intros (-> & -> & ->). now rewrite !Z.compare_refl, string_compare_refl.
+    destruct (dg_last a ?= dg_last b)%Z eqn:E2; try discriminate.
+    destruct (dg_msg a ?= dg_msg b)%string eqn:E3; try discriminate. intros E4.
+    apply Z.compare_eq in E1, E2. apply String.compare_eq_iff in E3. apply N.compare_eq in E4. auto.
+  - intros (-> & -> & -> & ->). now rewrite !Z.compare_refl, string_compare_refl, N.compare_refl.
 Qed.
 
 Lemma kcmp_eq_sort_key a b : kcmp a b = Eq <-> sort_key a = sort_key b.
@@ -144,10 +155,10 @@ Proof.
     destruct (r_details a ?= r_details b)%string eqn:E7; try discriminate.
     apply String.compare_eq_iff in E1, E5, E6, E7. apply Z.compare_eq in E2, E3, E4.
     rewrite E1, E2, E3, E4, E5, E6, E7.
-    destruct (r_diags a) as [|x xs], (r_diags b) as [|y ys]; cbn; try discriminate; auto.
-    intros E. apply dcmp_eq in E. destruct E as (-> & -> & ->). reflexivity.
+    destruct (fsort (r_diags a)) as [|x xs], (fsort (r_diags b)) as [|y ys]; cbn; try discriminate; auto.
+    intros E. apply dcmp_eq in E. destruct E as (-> & -> & -> & ->). reflexivity.
   - intros E. injection E as -> -> -> -> -> -> -> E8.
     rewrite !string_compare_refl, !Z.compare_refl.
-    destruct (r_diags a) as [|x xs], (r_diags b) as [|y ys]; cbn; try discriminate; auto.
-    injection E8 as E1 E2 E3. apply dcmp_eq. auto.
+    destruct (fsort (r_diags a)) as [|x xs], (fsort (r_diags b)) as [|y ys]; cbn; try discriminate; auto.
+    injection E8 as E1 E2 E3 E4. apply dcmp_eq. auto.
 Qed.
